@@ -334,11 +334,18 @@ def run_compare_history(chk, spec):
 	cur = list(vals)
 	for step, (pos, val) in enumerate([(None, None)] + [tuple(w) for w in spec["writes"]]):
 		if pos is not None:
+			kind_before = v.schema().kind if v.schema() is not None else None
 			w = call(v.__setitem__, pos, val)
 			if not w.ok:
 				chk.skip("compare-history-write-refused")
 				return
 			cur[pos] = val
+			kind_now = v.schema().kind if v.schema() is not None else None
+			if kind_now is not kind_before:
+				cur = [M.widen(x, kind_now) for x in cur]      # a promoting write converts the elements already stored (a later narrower value is stored as given)
+		others = other if isinstance(other, list) else [other]
+		if any(isinstance(x, V.date) and isinstance(y, V.date) and isinstance(x, V.datetime) != isinstance(y, V.datetime) for x in cur for y in others):
+			continue      # date against datetime is serif's own midnight rule (C06 judges it metamorphically), not Python's comparison
 		for opname in (spec["opname"], "ne"):
 			form = "vl" if isinstance(other, list) else "vs"
 			exp = cmp_expected({"opname": opname, "form": form, "a": cur, "b": other})
@@ -463,6 +470,11 @@ def run(chk):
 		for _k in range(rng.choice([1, 2, 3])):
 			writes.append((rng.randrange(n), rng.choice([None, None, rng.choice(ARITH_VALUES[kind])])))
 		other = rng.choice(ARITH_VALUES[kind]) if rng.random() < 0.5 else [rng.choice(ARITH_VALUES[kind]) for _ in range(n)]
+		if kind in ("date", "int") and rng.random() < 0.5:
+			# a write that promotes the vector (date -> datetime, int -> float); afterwards it is compared with values of the wider kind
+			wide = V.datetime(2020, 1, 31, 12, 30) if kind == "date" else 2.5
+			writes.insert(rng.randrange(len(writes) + 1), (rng.randrange(n), wide))
+			other = wide if rng.random() < 0.5 else [rng.choice([wide, V.datetime(2021, 2, 28, 0, 0) if kind == "date" else 1.0]) for _ in range(n)]
 		chk.case("compare_history", {"values": vals, "how": rng.choice(["was-none", "slice", "mask", "plain"]), "opname": rng.choice(list(CMP_OPS)), "other": other, "writes": writes}, "compare-history")
 	# rows that are kept while the table is used again
 	for _ in range(150 if chk.quick() else 800):
